@@ -21,11 +21,12 @@ Data == [n |-> I(-3), s |-> S(<<"LT", "a", "GT">>), g |-> F(-5, 1)]
 
 LeavesSmall == { IntL(0), IntL(2), IntL(7), Flt(3, 1), Str(<<"a">>), Bool(TRUE), Id("nil"), Id("zz") }
 \* 1500000.0 and 2^-14 print with an exponent (1.5e+06, 6.103515625e-05); 0.0 is the divisor AND dividend of 0.0 / 0.0
-LeavesFull  == LeavesSmall \cup { IntL(1), Flt(1, 2), Flt(4, 0), Flt(1500000, 0), Flt(1, 14), Flt(0, 0), Str(<<"b", "a">>), Str(<<>>), Bool(FALSE), Id("n"), Id("s"), Id("g"),
+LeavesFull  == LeavesSmall \cup { IntL(1), Flt(1, 2), Flt(4, 0), Flt(1500000, 0), Flt(1, 14), Flt(0, 0), MaxIntLit, Str(<<"b", "a">>), Str(<<>>), Bool(FALSE), Id("n"), Id("s"), Id("g"),
                                   Call("p", <<IntL(1), Bool(TRUE)>>), Call("p", <<IntL(2), IntL(0)>>), Call("p", <<IntL(3), Id("nil")>>) }
-Leaves == IF Pool = "small" THEN LeavesSmall ELSE LeavesFull
+\* pool "cat": sums and products over a string and two numbers, three operators deep ("(" + (1 + 2) + ")")
+Leaves == IF Pool = "small" THEN LeavesSmall ELSE IF Pool = "cat" THEN { Str(<<"a">>), IntL(1), IntL(2) } ELSE LeavesFull
 
-BinOps == {"+", "-", "*", "/", "<", "<=", ">", ">=", "==", "!=", "~=", "&&", "||"}
+BinOps == IF Pool = "cat" THEN {"+", "*"} ELSE {"+", "-", "*", "/", "<", "<=", ">", ">=", "==", "!=", "~=", "&&", "||"}
 
 \* documented precedence:  ! > * / > + - > < <= > >= > == != ~= > && ||
 Prec(op) == CASE op \in {"*", "/"} -> 5 [] op \in {"+", "-"} -> 4 [] op \in {"<", "<=", ">", ">="} -> 3
